@@ -23,7 +23,7 @@ import (
 
 var c10Peers = []string{"127.0.0.1", "10.0.0.1", "10.1.2.3", "192.168.1.5", "203.0.113.7", "::1", "::ffff:10.0.0.1", "2001:db8::1", "fe80::1%eth0"}
 
-var c10Entries = []string{"10.0.0.0/8", "10.1.0.0/16", "127.0.0.1", "::1", "2001:db8::/32", "0.0.0.0/0", "10.0.0.0/33", "abc"}
+var c10Entries = []string{"10.0.0.0/8", "10.1.0.0/16", "127.0.0.1", "::1", "2001:db8::/32", "0.0.0.0/0", "10.0.0.0/33", "abc", "", "  ", "10.0.0.0/8 "}
 
 func peerAddr(p string) string {
 	if strings.Contains(p, ":") {
